@@ -46,6 +46,8 @@ GROUPS = {
                 modpath="eval::verif_c13", crate=ENGINE),
     "c11": dict(file="c11.rs", into="weechess-core/src/notation.rs", scope="mod fen", mod="verif_c11", pub=True,
                 modpath="notation::fen::verif_c11", crate=CORE),
+    "c18": dict(file="c18.rs", into="weechess-engine/src/uci.rs", scope=None, mod="verif_c18", pub=False,
+                modpath="uci::verif_c18", crate=ENGINE),
     "c01p": dict(file="c01_perft.rs", into="weechess-engine/src/searcher.rs", scope=None, mod="verif_c01_perft", pub=False,
                  modpath="searcher::verif_c01_perft", crate=ENGINE),
 }
@@ -54,6 +56,11 @@ GROUPS = {
 EXTRACTS = [
     dict(file="weechess-engine/src/uci.rs", marker=".filter_map(|m| {", out="uci_extracted.rs",
          header="pub fn uci_move_token(m: &&str) -> Option<MoveQuery> {"),
+    # the `ucinewgame` arm of the UCI command loop, as a function over the two loop-local variables it can touch
+    dict(file="weechess-engine/src/uci.rs", marker='Some((&"ucinewgame", _)) => {', out="ucinewgame_extracted.rs",
+         header="#[allow(unused_mut, unused_variables, unused_assignments)]\npub fn ucinewgame_arm<S: SearchLike>(mut current_search: Option<S>, "
+                "mut previous_artifact: Option<S::Artifact>) -> (Option<S>, Option<S::Artifact>) {",
+         footer="(current_search, previous_artifact)\n"),
     # the FEN reader after its regex gate: everything from the first field parser call to the end of the function,
     # with `groups` an index-by-number view of the six captured fields (same Index<usize, Output = str> as regex::Captures)
     dict(kind="fn_tail", file="weechess-core/src/notation.rs", scopes=["mod fen", "impl TryFromNotation<State> for Fen"],
@@ -656,6 +663,36 @@ PROPS["C15"] = dict(
     level_note="Concurrency is assumed through the lock discipline, not proved. The RwLock routing layer is not verified.",
 )
 
+PROPS["C18"] = dict(
+    obligations=[
+        K("c18", "c18_ucinewgame_clears_search_memory", desc="the `ucinewgame` arm of Client::exec (body extracted verbatim; the running search's type "
+          "abstracted to its wait_cancel signature): whatever the session state before, afterwards no search is running, a running search was "
+          "stopped and joined exactly once, and NO search memory (previous_artifact) is left -- the state of a freshly started process",
+          functions=["Client::exec, arm `ucinewgame` (extracted)"]),
+    ],
+    assumptions=["a fresh process starts its command loop with `current_search = None` and `previous_artifact = None`, and the `go` arm hands "
+                 "`previous_artifact.take()` to Search::spawn (both are textual anchors checked on every run: lost anchor => undecided)",
+                 "Searcher::analyze_iterative with `previous_artifact == None` builds a fresh hasher, transposition table and StateHistory "
+                 "(`previous_artifact.map(..).unwrap_or_else(<fresh>)`; by reading -- any harness reaching it crashes the Kani compiler)",
+                 "the session's other loop-local state (current_position, the book, the thread RNG) is not search memory: the position is "
+                 "set by `position`, the book is immutable, the RNG is OS-seeded in every process"],
+    assumed_contracts=["Search::wait_cancel(self) -> SearchArtifact stops and joins the search (threads; not verified)"],
+    not_claimed=["equality of the engine's *answers* with those of a fresh process as an end-to-end statement about the threaded search: what is "
+                 "proved is that the command leaves exactly the fresh-process session state, from which equal behaviour follows because "
+                 "the search reads nothing else"],
+    trusted=["the textual arm extractor (verbatim; lost anchor => exit 2)"],
+    anchors=[("weechess-engine/src/uci.rs", r"let mut current_search: Option<Search> = None;"),
+             ("weechess-engine/src/uci.rs", r"let mut previous_artifact = None;"),
+             ("weechess-engine/src/uci.rs", r"^\s*previous_artifact\.take\(\),\s*$")],
+    technique="Kani/CBMC: contract on the `ucinewgame` arm of the UCI loop, extracted verbatim, with the running search abstracted to the "
+              "signature of wait_cancel",
+    level_text="Proof of the command's effect on the session state: the arm's verbatim body is executed symbolically for every combination of "
+               "'search running' and 'memory already collected'; afterwards nothing runs and no memory is left, which is the state a fresh "
+               "process starts from.",
+    level_note="The threaded search itself is not verified; that a search started with no artifact is fresh is by reading "
+               "(analyze_iterative). Trusted: Kani/CBMC, the extractor.",
+)
+
 PROPS["C20"].update(
     technique="Kani/CBMC: constructor/accessor contracts discharged by loop-free harnesses over the whole attribute "
               "domain; Kani function contracts on the bit-field primitives",
@@ -678,10 +715,6 @@ NOT_APPLICABLE = {
            "claimed under C02, C12 and C14",
     "C16": "book content is a concrete computation over 132 corpus files inside build.rs and 'never answers for another "
            "position' is true only up to 64-bit hash collisions: not a deterministic postcondition of lookup",
-    "C18": "local state of the stdin loop inside Client::exec. The `ucinewgame` arm was extracted into a function (as done for the UCI move reader), "
-           "but any Kani harness that mentions the loop's `Search` value (two JoinHandles) makes the Kani 0.68 compiler panic (catch_unwind "
-           "intrinsic in the drop glue of std's thread Packet), so no obligation can be built; by reading, the arm does not clear "
-           "`previous_artifact` (DESIGN.md section 6, observations)",
     "C19": "2-safety over the whole multi-threaded search; the verifier abstracts exactly the nondeterminism sources "
            "(OS randomness, scheduling, RandomState) the property is about",
 }
